@@ -409,8 +409,10 @@ ENC_LOOP_REVIEWED = {
     "encodation::x12::encode": (1, "`while characters_left() >= 3`: eats three characters per iteration or breaks"),
     "encodation::edifact::encode": (1, "`while let Some(ch) = ctx.eat()`"),
     "encodation::base256::encode": (1, "each iteration eats a character while characters are left, and returns when none are left or the mode switches"),
-    "encodation::planner::shortest_path::remove_hopeless_cases": (1, "`while start + 1 < list.len()`: start increases or the loop breaks"),
-    "<encodation::planner::c40::C40LikePlan<T, U> as encodation::planner::Plan>::step": (1, "`while self.values >= 3 { .. self.values -= 3 }`: strictly decreasing"),
+    # remove_hopeless_cases (`while start + 1 < list.len()`) and C40LikePlan::step (`while self.values >= 3 { .. -= 3 }`) are decided by
+    # variant_loop() from their shape and need no reviewed budget
+    "encodation::planner::shortest_path::remove_hopeless_cases": (0, ""),
+    "<encodation::planner::c40::C40LikePlan<T, U> as encodation::planner::Plan>::step": (0, ""),
     "encodation::planner::c40::unbeatable_strike": (0, ""),
 }
 
@@ -429,6 +431,158 @@ LOOP_FILE = {
     "<encodation::planner::c40::C40LikePlan<T, U> as encodation::planner::Plan>::step": "src/encodation/planner/c40.rs",
     "encodation::planner::c40::unbeatable_strike": "src/encodation/planner/c40.rs",
 }
+
+
+_P_BYVALUE = {"index", "index_mut", "remove", "swap_remove", "get", "get_mut", "from", "into", "min", "max", "cmp", "lt", "le", "gt", "ge", "eq", "ne",
+              "add", "sub", "mul", "div", "rem", "try_from", "try_into", "clone", "split_at", "nth", "skip", "take"}
+_V_NOGROW = {"len", "index", "index_mut", "is_empty", "iter", "iter_mut", "get", "get_mut", "first", "last", "deref", "deref_mut", "as_slice",
+             "remove", "swap_remove", "pop", "truncate", "clear", "retain", "dedup", "dedup_by_key", "sort", "sort_unstable", "sort_by_key",
+             "sort_unstable_by_key", "sort_by", "sort_unstable_by", "swap", "contains", "binary_search"}
+_V_SHRINK = {"remove", "swap_remove", "pop"}
+
+
+def _callee_keeps_len(f, callee, argi, depth=2):
+    """a crate-local callee that receives the vector as argument `argi`: its body only uses it through calls that cannot grow it
+    (and hands it on only to callees for which the same holds)"""
+    if f is None or depth <= 0:
+        return False
+    body = next((b for n, b in f.thir.items() if T.canon(n) == callee), None)
+    if body is None or argi >= len(body["params"]):
+        return False
+    pat = body["params"][argi].get("pat") or {}
+    if pat.get("k") != "Bind" or "sub" in pat:
+        return False
+    v = pat["name"]
+    for st in T.stmt_walk(T.stmts(body["body"], {"__noinline__": True})):
+        if st[0] == "assign" and any(isinstance(x, tuple) and x[0] == "var" and len(x) > 2 and x[2] == v for x in T.sx_walk(st[1])) and st[1][0] != "index" \
+                and not (st[1][0] == "call" and st[1][1].endswith(("::index_mut", "::index"))):
+            return False
+        for e in T.stmt_exprs(st):
+            for x in T.sx_walk(e):
+                if isinstance(x, tuple) and x and x[0] == "closure":
+                    return False
+                if isinstance(x, tuple) and x and x[0] == "call":
+                    last = x[1].split("::")[-1]
+                    for i, a in enumerate(x[2]):
+                        a0 = strip_into_iter(a) if isinstance(a, tuple) else a
+                        if isinstance(a0, tuple) and a0 and a0[0] == "var" and len(a0) > 2 and a0[2] == v and last not in _V_NOGROW:
+                            if not _callee_keeps_len(f, x[1], i, depth - 1):
+                                return False
+    return True
+
+
+def variant_loop(lp, f=None):
+    """Termination of a `while` loop decided from its shape: the condition is `p < E` / `p <= E` (or `p + c < E`) with E a literal,
+    an immutable local or `v.len()`, and every path through the body either raises p by a positive literal, removes an element
+    of v (`remove` / `swap_remove` / `pop`; then E - p still drops), or leaves the loop; nothing in the body assigns p otherwise,
+    passes it on by reference, or can grow v.  The mirrored form `p >= c` / `p > c` with `p -= k` (k small enough not to wrap) is
+    accepted too.  Returns a description of the variant, or None when the loop is not of this shape."""
+    body = lp[1]
+    if not (len(body) == 1 and body[0][0] == "if" and len(body[0][3]) == 1 and body[0][3][0][0] == "break"):
+        return None
+    cond, then = body[0][1], body[0][2]
+    if not (isinstance(cond, tuple) and cond[0] == "bin" and cond[1] in ("Lt", "Le", "Ge", "Gt")):
+        return None
+    L, Rr = cond[2], cond[3]
+    down = cond[1] in ("Ge", "Gt")
+    if L[0] == "bin" and L[1] == "Add" and L[3][0] == "lit" and not down:
+        L = L[2]
+    if L[0] not in ("var", "field"):
+        return None
+    p = L
+    vec = None
+    if Rr[0] == "lit" and isinstance(Rr[1], int):
+        bound = Rr[1]
+    elif Rr[0] == "call" and Rr[1].endswith("::len") and len(Rr[2]) == 1 and not down:
+        vec = strip_into_iter(Rr[2][0])
+        while vec[0] == "call" and vec[1].split("::")[-1] in ("deref", "deref_mut", "as_slice") and len(vec[2]) == 1:
+            vec = vec[2][0]
+        if vec[0] not in ("var", "field"):
+            return None
+    else:
+        return None
+    bad = []
+
+    def same(a, b):
+        return a[:2] == b[:2] if a[0] == "var" and b[0] == "var" else a == b
+
+    def scan(stl):
+        for st in T.stmt_walk(stl):
+            if st[0] == "assign" and (same(st[1], p) or (vec is not None and (same(st[1], vec) or (st[1][0] == "deref" and same(st[1][-1], vec))))):
+                bad.append("assignment to %s" % T.sx_show(st[1]))
+            if st[0] == "assignop" and same(st[2], p):
+                okop = st[3][0] == "lit" and isinstance(st[3][1], int) and st[3][1] >= 1 and ((st[1] == "AddAssign" and not down) or (
+                    st[1] == "SubAssign" and down and st[3][1] <= (bound if cond[1] == "Ge" else bound + 1)))
+                if not okop:
+                    bad.append("%s %s" % (st[1], T.sx_show(st[3])))
+            for e in T.stmt_exprs(st):
+                for x in T.sx_walk(e):
+                    if isinstance(x, tuple) and x and x[0] == "call":
+                        last = x[1].split("::")[-1]
+                        for a in x[2]:
+                            a0 = strip_into_iter(a) if isinstance(a, tuple) else a
+                            if isinstance(a0, tuple) and a0 and a0[0] in ("var", "field"):
+                                if same(a0, p) and last not in _P_BYVALUE:
+                                    bad.append("%s passed to %s" % (T.sx_show(p), last))
+                                if vec is not None and same(a0, vec) and last not in _V_NOGROW and not _callee_keeps_len(f, x[1], list(x[2]).index(a)):
+                                    bad.append("%s passed to %s" % (T.sx_show(vec), last))
+                    if isinstance(x, tuple) and x and x[0] == "closure":
+                        bad.append("closure in the loop body")
+    scan(then)
+
+    def progress_stmt(st):
+        if st[0] == "assignop" and same(st[2], p):
+            return True
+        e = st[1] if st[0] == "expr" else (st[3] if st[0] == "let" and len(st) > 3 else None)
+        if vec is not None and isinstance(e, tuple) and e and e[0] == "call" and e[1].split("::")[-1] in _V_SHRINK and e[2] and same(strip_into_iter(e[2][0]), vec):
+            return True
+        return False
+
+    def outs(stl):
+        cur = {"neutral"}
+        for st in stl:
+            nxt = set()
+            for o in cur:
+                if o in ("exit", "stuck"):
+                    nxt.add(o)
+                    continue
+                for o2 in stmt_outs(st):
+                    if o2 == "continue":
+                        nxt.add("exit" if o == "progress" else "stuck")
+                    elif o2 in ("exit", "stuck"):
+                        nxt.add(o2)
+                    else:
+                        nxt.add("progress" if "progress" in (o, o2) else "neutral")
+            cur = nxt
+        return cur
+
+    def stmt_outs(st):
+        if progress_stmt(st):
+            return {"progress"}
+        if st[0] in ("break", "return"):
+            return {"exit"}
+        if st[0] == "continue":
+            return {"continue"}
+        if st[0] == "if":
+            return outs(st[2]) | outs(st[3] or [])
+        if st[0] == "match":
+            o = set()
+            for arm in st[2]:
+                o |= outs(arm[1])
+            return o or {"neutral"}
+        if st[0] in ("loop", "for"):
+            inner = st[1] if st[0] == "loop" else st[3]
+            return {"neutral"} | ({"exit"} if any(x[0] == "return" for x in T.stmt_walk(inner)) else set())
+        if st[0] in ("let", "letpat") and len(st) > 3 and isinstance(st[-2], list):
+            # let .. else { diverges }
+            return {"neutral", "exit"}
+        return {"neutral"}
+    res = outs(then)
+    if bad or not res <= {"progress", "exit"}:
+        return None
+    return "`while %s`: every path through the body %s%s or leaves the loop; nothing else writes %s%s" % (
+        T.sx_show(cond, 60), ("lowers " if down else "raises ") + T.sx_show(p), (" or removes an element of " + T.sx_show(vec)) if vec is not None else "",
+        T.sx_show(p), (" or can grow " + T.sx_show(vec)) if vec is not None else "")
 
 
 def _loop_budget(table, found):
@@ -456,7 +610,7 @@ def t_loops_encode(ctx):
     for name, b in f.thir.items():
         cn = T.canon(name)
         if cn in fns and cn not in dec:
-            k = sum(1 for s in T.stmt_walk(T.stmts(b["body"], {"__noinline__": True})) if s[0] == "loop")
+            k = sum(1 for s in T.stmt_walk(T.stmts(b["body"], {"__noinline__": True})) if s[0] == "loop" and not variant_loop(s, f))
             if k and not (cn.endswith("shortest_path::optimize") and k == 1):
                 found[cn] = (b["span"]["file"], k)
     led, now = _loop_budget(ENC_LOOP_REVIEWED, found)
@@ -466,6 +620,12 @@ def t_loops_encode(ctx):
             continue
         sts = T.stmts(b["body"], {"__noinline__": True})
         loops = [s for s in T.stmt_walk(sts) if s[0] == "loop"]
+        for k, s in enumerate(loops):
+            why = variant_loop(s, f)
+            if why:
+                n += 1
+                obs.append(Ob(r, "variant:%s:%d" % (cn, k), True, "%s terminates - %s" % (cn.split("::")[-1], why), site=s[-1] if isinstance(s[-1], str) else None))
+        loops = [s for s in loops if not variant_loop(s, f)]
         fors = [s for s in T.stmt_walk(sts) if s[0] == "for"]
         for s in fors:
             n += 1
@@ -506,7 +666,7 @@ def t_loops(ctx):
     for name, b in f.thir.items():
         cn = T.canon(name)
         if cn in fns:
-            k = sum(1 for s in T.stmt_walk(T.stmts(b["body"], {"__noinline__": True})) if s[0] == "loop")
+            k = sum(1 for s in T.stmt_walk(T.stmts(b["body"], {"__noinline__": True})) if s[0] == "loop" and not variant_loop(s, f))
             if k:
                 found[cn] = (b["span"]["file"], k)
     led, now = _loop_budget(LOOP_REVIEWED, found)
@@ -516,6 +676,12 @@ def t_loops(ctx):
             continue
         sts = T.stmts(b["body"], {"__noinline__": True})
         loops = [s for s in T.stmt_walk(sts) if s[0] == "loop"]
+        for k, s in enumerate(loops):
+            why = variant_loop(s, f)
+            if why:
+                n_loop += 1
+                obs.append(Ob(r, "variant:%s:%d" % (cn, k), True, "%s terminates - %s" % (cn.split("::")[-1], why), site=s[-1] if isinstance(s[-1], str) else None))
+        loops = [s for s in loops if not variant_loop(s, f)]
         fors = [s for s in T.stmt_walk(sts) if s[0] == "for"]
         for s in fors:
             n_for += 1
